@@ -29,6 +29,7 @@ func TestC19(t *testing.T) {
 				faults: chainsim.FaultPlan{Partitions: true, Crashes: true, Skew: true, LongOutage: true}, blocks: [2]int{15, 90},
 				tail: func(w *chainsim.World, m *chainsim.Monitor, adv *chainsim.Adversary) { quietTail(t, w, m, adv) }},
 				func(w *chainsim.World, m *chainsim.Monitor) {
+					w.SyncMon.StartHandlerProbes(4 * time.Second)
 					if simkit.Chance(t, "phantoms", 1, 3) {
 						phantoms = simkit.Int(t, "nphantoms", 1, 4)
 						w.AddPhantoms(phantoms)
